@@ -55,7 +55,7 @@ TNew == /\ IsEvent("New")
         /\ PairsOk(Rec.init)
         /\ Step(Res([Fresh EXCEPT !.mem = FromPairs(Rec.init)], 0, <<>>, "ok"))
 
-TReset == IsEvent("Reset") /\ Step(ResetOp(st))
+TReset == IsEvent("Reset") /\ Rec.same = 1 /\ Step(ResetOp(st))      \* same: the raw pointer handed out earlier still is the memory
 
 \* full observation of the raw memory
 TScan == /\ IsEvent("Scan")
